@@ -105,10 +105,10 @@ class Data(object):
             lon = [loc.lon for loc in self._inputs[0].locations]
             loc_id = [loc.id for loc in self._inputs[0].locations]
             latlon_locations = list()
-            min_lon = -180
-            max_lon = 180
-            min_lat = -90
-            max_lat = 90
+            min_lon = -np.inf
+            max_lon = np.inf
+            min_lat = -np.inf
+            max_lat = np.inf
             if lat_range is not None:
                 min_lat = lat_range[0]
                 max_lat = lat_range[1]
